@@ -38,6 +38,7 @@ type FanOpts struct {
 	Soak      time.Duration // after the history: small update requests back to back for this long (connections grow old)
 	Exe       string
 	KillAfter int // batch index after which the child is killed
+	Mux       int // > 0: before the history, the fresh-connection probe on a collection of this many points
 }
 
 type fan struct {
@@ -374,6 +375,86 @@ func (f *fan) observe(leaves []sd.Q) {
 	}
 }
 
+// muxProbe: the FIRST calls node 1 ever sends to node 2 are a search that reads
+// many points (a slow answer) and, a moment later, an update that the shards
+// refuse as a whole (an error answer of the remote handler): both travel on the
+// same fresh connection. Everything the probe needs was set up through node 2,
+// so that node 1 has not talked to it before. The search must find every point
+// exactly once, whatever happens to the refused request (RpcMux.tla).
+func (f *fan) muxProbe(histNo int, n int) error {
+	a, b := f.nodes[0], f.nodes[1]
+	col := models.Collection{UserId: fmt.Sprintf("mux%d", histNo), Id: "mux", Replicas: 1, IndexSchema: FanCfg.Schema(),
+		UserPlan: models.UserPlan{Name: "verif", MaxCollections: 5, MaxCollectionPointCount: 1 << 30, MaxPointSize: 20000}}
+	// (a user whose records live on node 2: creating and fetching the collection stays local to it)
+	for k := 0; serverIdx(f.names, cluster.RendezvousHash(col.UserId, f.names, 1)[0]) != 2 && k < 500; k++ {
+		col.UserId = fmt.Sprintf("mux%d-%d", histNo, k)
+	}
+	if err := b.CreateCollection(col); err != nil {
+		return fmt.Errorf("mux: create: %w", err)
+	}
+	pts := make([]models.Point, n)
+	want := map[uuid.UUID]bool{}
+	for i := range pts {
+		var id uuid.UUID
+		f.r.Read(id[:])
+		data, _ := msgpack.Marshal(map[string]any{"i": int64(i), "pad": strings.Repeat("p", 200)})
+		pts[i] = models.Point{Id: id, Data: data}
+		want[id] = true
+	}
+	if failed, err := b.InsertPoints(col, pts); err != nil || len(failed) > 0 {
+		return fmt.Errorf("mux: insert: %v (%d failed ranges)", err, len(failed))
+	}
+	col, err := b.GetCollection(col.UserId, col.Id)
+	if err != nil {
+		return fmt.Errorf("mux: get: %w", err)
+	}
+	col.UserPlan = models.UserPlan{Name: "verif", MaxCollections: 5, MaxCollectionPointCount: 1 << 30, MaxPointSize: 20000}
+	remote := 0
+	for _, sid := range col.ShardIds {
+		if serverIdx(f.names, cluster.RendezvousHash(sid, f.names, 1)[0]) == 2 {
+			remote++
+		}
+	}
+	var wg sync.WaitGroup
+	var res []models.SearchResult
+	var serr error
+	refused := 0
+	wg.Add(2)
+	go func() {
+		defer wg.Done()
+		res, serr = a.SearchPoints(col, models.SearchRequest{Query: models.Query{Property: "i", Integer: &models.SearchIntegerOptions{Value: 0, Operator: models.OperatorGreaterOrEq}}, Limit: n + 10})
+	}()
+	go func() {
+		defer wg.Done()
+		time.Sleep(300 * time.Microsecond)
+		big, _ := msgpack.Marshal(map[string]any{"pad": strings.Repeat("x", 21000)})
+		var ups []models.Point
+		for k := 0; k < 6; k++ {
+			ups = append(ups, models.Point{Id: pts[f.r.Intn(n)].Id, Data: big})
+		}
+		failed, err := a.UpdatePoints(col, ups)
+		if err != nil || len(failed) > 0 {
+			refused = 1
+		}
+	}()
+	wg.Wait()
+	found, extra, dups := 0, 0, 0
+	seen := map[uuid.UUID]bool{}
+	for _, sr := range res {
+		switch {
+		case seen[sr.Id]:
+			dups++
+		case want[sr.Id]:
+			found++
+		default:
+			extra++
+		}
+		seen[sr.Id] = true
+	}
+	f.tw.Emit("CMux", M{"n": n, "shards": len(col.ShardIds), "remote": remote, "err": b2i(serr != nil), "found": found, "extra": extra, "dups": dups, "refused": refused})
+	return nil
+}
+
 // RunFanout runs one history on a fresh deployment.
 func RunFanout(histNo int, seed int64, root string, tw *trace.Writer, o FanOpts) error {
 	dir := filepath.Join(root, fmt.Sprintf("fan%d", histNo))
@@ -394,7 +475,11 @@ func RunFanout(histNo int, seed int64, root string, tw *trace.Writer, o FanOpts)
 		inproc = o.Servers - 1
 	}
 	for i := 0; i < inproc; i++ {
-		n, err := StartNode(NodeConfig(filepath.Join(dir, fmt.Sprintf("n%d", i+1)), ports[i], names, o.MaxShard, 1<<40), false)
+		nc := NodeConfig(filepath.Join(dir, fmt.Sprintf("n%d", i+1)), ports[i], names, o.MaxShard, 1<<40)
+		if o.Mux > 0 {
+			nc.MaxSearchLimit = o.Mux + 10 // (the probe's search reads every point of its collection)
+		}
+		n, err := StartNode(nc, false)
 		if err != nil {
 			return err
 		}
@@ -413,6 +498,11 @@ func RunFanout(histNo int, seed int64, root string, tw *trace.Writer, o FanOpts)
 			n.Close()
 		}
 	}()
+	if o.Mux > 0 && len(f.nodes) >= 2 {
+		if err := f.muxProbe(histNo, o.Mux); err != nil {
+			return err
+		}
+	}
 	user := fmt.Sprintf("user%d", histNo)
 	f.userSrv = serverIdx(names, cluster.RendezvousHash(user, names, 1)[0])
 	f.col = models.Collection{UserId: user, Id: "col", Replicas: 1, IndexSchema: FanCfg.Schema(),
@@ -433,6 +523,31 @@ func RunFanout(histNo int, seed int64, root string, tw *trace.Writer, o FanOpts)
 			tw.Emit("CDown", M{"server": o.Servers})
 			f.place()
 			f.probeDown()
+			// a collection of a user whose server is the dead one, created through every live node: the record has
+			// one home, so the request fails -- or, if a node says it succeeded, every node can read the record back
+			ghost := ""
+			for k := 0; k < 200 && ghost == ""; k++ {
+				if u := fmt.Sprintf("ghost%d-%d", histNo, k); serverIdx(names, cluster.RendezvousHash(u, names, 1)[0]) == o.Servers {
+					ghost = u
+				}
+			}
+			if ghost != "" {
+				oks, reads := []int{}, []int{}
+				for k, n := range f.nodes {
+					gc := f.col
+					gc.UserId, gc.Id = ghost, fmt.Sprintf("g%d", k)
+					oks = append(oks, b2i(n.CreateCollection(gc) == nil))
+				}
+				for k := range f.nodes {
+					for _, n := range f.nodes {
+						_, err := n.GetCollection(ghost, fmt.Sprintf("g%d", k))
+						if oks[k] == 1 {
+							reads = append(reads, b2i(err == nil))
+						}
+					}
+				}
+				tw.Emit("CCreateDown", M{"oks": oks, "reads": reads})
+			}
 		}
 		x := f.r.Float64()
 		switch {
@@ -451,6 +566,7 @@ func RunFanout(histNo int, seed int64, root string, tw *trace.Writer, o FanOpts)
 		f.soaking = true
 		end := time.Now().Add(o.Soak)
 		var wg sync.WaitGroup
+		var noiseIDs []int
 		for w := 0; w < 4; w++ {
 			var mine []int
 			for id := range f.live {
@@ -460,6 +576,10 @@ func RunFanout(histNo int, seed int64, root string, tw *trace.Writer, o FanOpts)
 			}
 			sort.Ints(mine)
 			if len(mine) == 0 {
+				continue
+			}
+			if w == 3 && len(f.nodes) > 1 {
+				noiseIDs = mine
 				continue
 			}
 			wg.Add(1)
@@ -482,6 +602,30 @@ func RunFanout(histNo int, seed int64, root string, tw *trace.Writer, o FanOpts)
 					f.tw.Emit("CUpdate", M{"pts": abs, "ok": b2i(err == nil), "failed": failedList(failed)})
 				}
 			}(w, mine)
+		}
+		// the fourth client sends, through every node, updates that the shard refuses as a whole (the merged
+		// point would exceed the plan's point size): an error of the remote handler, which travels over the very
+		// connections the other clients' updates use. Such a request changes nothing, and nothing of it
+		// concerns the others.
+		if len(f.nodes) > 1 && len(noiseIDs) > 0 {
+			wg.Add(1)
+			go func() {
+				defer wg.Done()
+				wr := rand.New(rand.NewSource(seed*31 + 99))
+				asked, refused := 0, 0
+				big := strings.Repeat("x", int(f.col.UserPlan.MaxPointSize)+1000)
+				for time.Now().Before(end) {
+					id := noiseIDs[wr.Intn(len(noiseIDs))]
+					data, _ := msgpack.Marshal(map[string]any{"pad": big})
+					failed, err := f.nodes[wr.Intn(len(f.nodes))].UpdatePoints(f.col, []models.Point{{Id: sd.UUIDOf(id), Data: data}})
+					asked++
+					if err != nil || len(failed) > 0 {
+						refused++
+					}
+					time.Sleep(time.Duration(2+wr.Intn(15)) * time.Millisecond)
+				}
+				f.tw.Emit("CNoise", M{"asked": asked, "refused": refused})
+			}()
 		}
 		wg.Wait()
 		f.soaking = false
